@@ -19,6 +19,8 @@ result dict keys (all optional):
     info        anything JSON-able, shown in samples
 """
 import collections
+import contextlib
+import io
 import fnmatch
 import hashlib
 import importlib
@@ -95,7 +97,10 @@ def _guarded(args):
     fn_ref, arg = args
     t0 = time.time()
     try:
-        res = _call(fn_ref, arg)
+        # the code under test prints diagnostics (e.g. TemperatureParameters echoes its arguments); keep the
+        # check's stdout for the verdict lines only
+        with contextlib.redirect_stdout(io.StringIO()):
+            res = _call(fn_ref, arg)
         if res is None:
             res = {}
     except Exception:
@@ -166,6 +171,10 @@ class Ctx:
         self.evaluations += ne
         st['evaluations'] += ne
         st['cases'] = st.get('cases', 0) + 1
+        w = float(res.get('_wall', 0.0))
+        st['cpu_s'] = round(st.get('cpu_s', 0.0) + w, 2)
+        if w > st.get('max_case_s', 0.0):
+            st['max_case_s'] = round(w, 2)
         s, t = int(res.get('states', 1)), int(res.get('transitions', 0))
         self.states += s
         self.transitions += t
